@@ -62,6 +62,9 @@ structure St where
   kt : Bool := false
   /-- SQPOLL: the kernel thread is idle (`IORING_SQ_NEED_WAKEUP` is set in the SQ flags word) -/
   asleep : Bool := false
+  /-- number of calls so far that came through `Submissions::cancel` (the correspondence
+  harness has `cancelPool` in-flight operations to drop) -/
+  nc : Nat := 0
   deriving Repr
 
 def head32 (s : St) : Nat := s.H % 4294967296
@@ -152,17 +155,32 @@ def stepEnterKt (s : St) : St × String :=
     (fun v => match v with | some e => toString e | none => "torn")
   (s', s!"enter 0 consumed {if got.isEmpty then "-" else joinWith "," got}")
 
-/-- A new call of `add` by thread `i` (after the previous one finished). -/
+/-- In-flight operations the correspondence harness can drop. -/
+def cancelPool : Nat := 6
+
+/-- Which calls come through `Submissions::cancel` (dropping an in-flight operation) rather
+than `Submissions::add` (here: `AsyncFd::drop`): every third entry, while the pool lasts. -/
+def isCancel (nc entry : Nat) : Bool := entry % 3 == 2 && nc < cancelPool
+
+/-- Where a call starts: `cancel` skips the unlocked pre-check (fix e17b949: the cancel request
+of a dropped operation is the only attempt, and the pre-check can answer `QueueFull` for a
+queue that was never full, see `C04_precheck`) and goes straight for the lock. -/
+def startPc (c : Bool) : Pc := if c then .a3 else .a1
+
+/-- A new call by thread `i` (after the previous one finished). -/
 def restart (s : St) (i : Nat) (entry : Nat) : St × String :=
   match s.thr[i]? with
   | some t =>
-    if t.pc = .ok ∨ t.pc = .full then (setThr s i { pc := .a1, entry := entry }, "ok")
+    if t.pc = .ok ∨ t.pc = .full then
+      (setThr { s with nc := if isCancel s.nc entry then s.nc + 1 else s.nc } i
+        { pc := startPc (isCancel s.nc entry), entry := entry }, "ok")
     else (s, "bad-op")
   | none => (s, "bad-op")
 
 def init (len h0 n : Nat) : St :=
   { len := len, H := h0, T := h0, slots := List.replicate len none,
-    thr := (List.range n).map (fun i => { entry := i }) }
+    thr := (List.range n).map (fun i => { pc := startPc (i % 3 == 2), entry := i }),
+    nc := n / 3 }
 
 /-! ### Line protocol (component `sq`)
 
